@@ -79,7 +79,14 @@ def Access.inBounds (size : Region → Nat) (a : Access) : Prop :=
 def Access.inBoundsB (size : Region → Nat) (a : Access) : Bool :=
   Nat.ble (a.off + a.width) (size a.region)
 
-/-! ## Resolved instructions -/
+/-! ## Resolved instructions
+
+  Each `Instr` is resolved ONCE (`compile`) into a small instruction form: the mnemonic string becomes a
+  constructor, operands become `COpd`, and jump targets become positions in the resolved program.
+  Vector instructions without a memory operand and without a general-purpose destination cannot change
+  anything the interpreter looks at; they are REMOVED from the resolved program (after their mnemonic has
+  been checked against the table `isPureVec`), so that a run only steps through the instructions that
+  matter.  A jump to a removed instruction lands on the next kept one. -/
 
 inductive Alu where
   | add | sub | and | or | xor | shl | shr
@@ -102,25 +109,25 @@ inductive COpd where
 deriving DecidableEq, Repr
 
 inductive CI where
-  | skip                                                  -- vector instruction without memory operand / NOP
+  | skip                                                  -- pure vector instruction / NOP (removed by `compile`)
   | mov (w : Nat) (src dst : COpd)
-  | lea (src dst : COpd)
+  | lea (src : COpd) (dst : Nat)
   | alu (op : Alu) (w : Nat) (src dst : COpd)
   | cmp (a b : COpd)
   | kmov (src : COpd) (k : Nat)
-  | jcc (c : Cond) (idx : Nat)                            -- idx: index of the target instruction
-  | jmp (idx : Nat)
+  | jcc (c : Cond) (chunk off : Nat)                      -- before target resolution: chunk = target pc, off = 0
+  | jmp (chunk off : Nat)
   | ret
   | vmem (w elt : Nat) (mask : Option Nat) (ops : List COpd)  -- vector instruction with a memory operand (last = destination)
   | clobber (r : Nat)                                     -- vector instruction writing a general-purpose register
   | unsupported
-deriving Repr
+deriving DecidableEq, Repr
 
 structure CInstr where
   ci : CI
   pc : Nat
   line : Nat
-deriving Repr
+deriving DecidableEq, Repr
 
 def wordOfInt : Int → Nat
   | .ofNat n => n % W
@@ -157,12 +164,29 @@ def COpd.isBad : COpd → Bool
   | .bad => true
   | _ => false
 
+/-- vector register, immediate or opmask register -/
+def COpd.isVecish : COpd → Bool
+  | .vec => true
+  | .imm _ => true
+  | .kreg _ => true
+  | _ => false
+
 /-- LEAQ sym<>(SB), R is how the assembler prints MOVQ $sym<>(SB), R: the operand is an address. -/
 def COpd.asAddr : COpd → COpd
   | .symMem i o => .symAddr i o
   | o => o
 
-/-- full-width vector moves: (element size in bytes) -/
+/-- Vector instructions that read vector / opmask / immediate / general-purpose SOURCES and write a vector
+    register, with no implicit operand and no effect on the flags (most frequent first). -/
+def isPureVec (mn : String) : Bool :=
+  mn == "VPXORD" || mn == "VPROLD" || mn == "VPBROADCASTD" || mn == "VGF2P8AFFINEQB" ||
+  mn == "VGF2P8AFFINEINVQB" || mn == "VPCLMULQDQ" || mn == "VPSHUFB" || mn == "VPSRLDQ" ||
+  mn == "VPSLLDQ" || mn == "VPANDD" || mn == "VPUNPCKLDQ" || mn == "VPUNPCKHDQ" || mn == "VPADDD" ||
+  mn == "VPSRLW" || mn == "VPUNPCKLQDQ" || mn == "VPUNPCKHQDQ" || mn == "VPERMQ" || mn == "VMOVDQA64" ||
+  mn == "VALIGND" || mn == "VMOVAPD" || mn == "VPSLLQ" || mn == "PSLLO" || mn == "VMOVDQU32" ||
+  mn == "VPSRLQ" || mn == "VPSLLD" || mn == "VPSRLD" || mn == "VPORD" || mn == "VPXORQ" || mn == "VPANDQ"
+
+/-- full-width vector moves: element size in bytes -/
 def vecMoveElt (mn : String) : Option Nat :=
   if mn == "VMOVDQU32" then some 4
   else if mn == "VMOVDQA32" then some 4
@@ -170,8 +194,6 @@ def vecMoveElt (mn : String) : Option Nat :=
   else if mn == "VMOVDQA64" then some 8
   else if mn == "VMOVDQU8" then some 1
   else if mn == "VMOVDQU16" then some 2
-  else if mn == "VMOVDQU" then some 1
-  else if mn == "VMOVDQA" then some 1
   else if mn == "VMOVUPS" then some 4
   else if mn == "VMOVAPS" then some 4
   else if mn == "VMOVUPD" then some 8
@@ -197,87 +219,55 @@ def lastOpd : List COpd → COpd
   | [x] => x
   | _ :: t => lastOpd t
 
-def startsWithV (mn : String) : Bool :=
-  match mn.toList with
-  | 'V' :: _ => true
-  | _ => false
-
 def condOf (mn : String) : Option Cond :=
   if mn == "JLT" then some .lt
-  else if mn == "JLE" then some .le
-  else if mn == "JGT" then some .gt
-  else if mn == "JGE" then some .ge
   else if mn == "JEQ" then some .eq
+  else if mn == "JGT" then some .gt
+  else if mn == "JLE" then some .le
   else if mn == "JNE" then some .ne
+  else if mn == "JGE" then some .ge
   else none
 
 def aluOf (mn : String) : Option (Alu × Nat) :=
   if mn == "ADDQ" then some (.add, 8)
   else if mn == "SUBQ" then some (.sub, 8)
+  else if mn == "SHRQ" then some (.shr, 8)
+  else if mn == "ORB" then some (.or, 1)
+  else if mn == "SHLQ" then some (.shl, 8)
   else if mn == "ANDQ" then some (.and, 8)
   else if mn == "ORQ" then some (.or, 8)
   else if mn == "XORQ" then some (.xor, 8)
-  else if mn == "SHLQ" then some (.shl, 8)
-  else if mn == "SHRQ" then some (.shr, 8)
-  else if mn == "ORB" then some (.or, 1)
   else if mn == "XORB" then some (.xor, 1)
   else none
 
 def movOf (mn : String) : Option Nat :=
-  if mn == "MOVQ" then some 8
-  else if mn == "MOVL" then some 4
-  else if mn == "MOVW" then some 2
+  if mn == "MOVL" then some 4
+  else if mn == "MOVQ" then some 8
   else if mn == "MOVB" then some 1
+  else if mn == "MOVW" then some 2
   else none
 
-/-- index of the instruction at byte offset `pc`; `pcs.length` if there is none -/
-def pcIndex (pcs : List Nat) (pc : Nat) : Nat :=
-  pcs.findIdx (· == pc)
-
-/-- Resolve one instruction.  `pcs` = the byte offsets of all instructions of the routine, in order. -/
-def compile1 (syms : List String) (pcs : List Nat) (i : Instr) : CInstr :=
-  let ops := i.ops.map (cOpd syms)
+/-- Resolve one instruction (jump targets still as byte offsets).  The tests are ordered so that the
+    frequent cases need few string comparisons (they are the expensive part in the kernel). -/
+def compile1 (syms : List String) (i : Instr) : CInstr :=
   let mk (c : CI) : CInstr := ⟨c, i.pc, i.line⟩
-  let tgt (k : Nat → CI) : CI :=
-    match i.ops with
-    | [.target t] =>
-        let j := pcIndex pcs t
-        if j < pcs.length then k j else .unsupported
-    | _ => .unsupported
-  match movOf i.mn with
-  | some w =>
-      (match ops with
-       | [s, d] => if s.isBad || d.isBad then mk .unsupported else mk (.mov w s d)
-       | _ => mk .unsupported)
-  | none =>
-  match aluOf i.mn with
-  | some (op, w) =>
-      (match ops with
-       | [s, d] => if s.isBad || d.isBad then mk .unsupported else mk (.alu op w s d)
-       | _ => mk .unsupported)
-  | none =>
-  match condOf i.mn with
-  | some c => mk (tgt (.jcc c))
-  | none =>
-  if i.mn == "JMP" then mk (tgt .jmp)
-  else if i.mn == "RET" then mk .ret
-  else if i.mn == "NOP" then mk .skip
-  else if i.mn == "CMPQ" then
-    (match ops with
-     | [a, b] => if a.isBad || b.isBad then mk .unsupported else mk (.cmp a b)
-     | _ => mk .unsupported)
-  else if i.mn == "LEAQ" then
-    (match ops with
-     | [s, .gpr d] => if s.isBad then mk .unsupported else mk (.lea s.asAddr (.gpr d))
-     | _ => mk .unsupported)
-  else if i.mn == "KMOVW" then
-    (match ops with
-     | [.gpr s, .kreg k] => mk (.kmov (.gpr s) k)
-     | [.imm v, .kreg k] => mk (.kmov (.imm v) k)
-     | _ => mk .unsupported)
-  else if startsWithV i.mn || i.mn == "PSLLO" || i.mn == "PSRLO" then
+  match i.ops with
+  | [] =>
+      if i.mn == "NOP" then mk .skip
+      else if i.mn == "RET" then mk .ret
+      else mk .unsupported
+  | [.target t] =>
+      if i.mn == "JMP" then mk (.jmp t 0)
+      else match condOf i.mn with
+        | some c => mk (.jcc c t 0)
+        | none => mk .unsupported
+  | rawOps =>
+    let ops := rawOps.map (cOpd syms)
     if ops.any COpd.isBad then mk .unsupported
-    else if ops.any COpd.isMem then
+    else if ops.all COpd.isVecish then
+      (if isPureVec i.mn then mk .skip else mk .unsupported)
+    else if ops.any COpd.isMem && ops.any (fun o => o == .vec) && !(i.mn == "MOVL") && !(i.mn == "MOVQ") then
+      -- vector instruction with a memory operand
       (match vecMoveElt i.mn with
        | some elt => mk (.vmem i.vw elt (firstKreg ops) ops)
        | none =>
@@ -288,14 +278,47 @@ def compile1 (syms : List String) (pcs : List Nat) (i : Instr) : CInstr :=
               | some _ => mk .unsupported)
          | none => mk .unsupported)
     else
-      (match lastOpd ops with
-       | .gpr r => mk (.clobber r)
-       | .frame _ => mk .unsupported
-       | _ => mk .skip)
-  else mk .unsupported
+    match movOf i.mn with
+    | some w =>
+        (match ops with
+         | [s, d] => mk (.mov w s d)
+         | _ => mk .unsupported)
+    | none =>
+    if i.mn == "VPBROADCASTD" then
+      (match ops with
+       | [.gpr _, .vec] => mk .skip
+       | _ => mk .unsupported)
+    else
+    match aluOf i.mn with
+    | some (op, w) =>
+        (match ops with
+         | [s, d] => mk (.alu op w s d)
+         | _ => mk .unsupported)
+    | none =>
+    if i.mn == "CMPQ" then
+      (match ops with
+       | [a, b] => mk (.cmp a b)
+       | _ => mk .unsupported)
+    else if i.mn == "LEAQ" then
+      (match ops with
+       | [s, .gpr d] => mk (.lea s.asAddr d)
+       | _ => mk .unsupported)
+    else if i.mn == "KMOVW" then
+      (match ops with
+       | [.gpr s, .kreg k] => mk (.kmov (.gpr s) k)
+       | [.imm v, .kreg k] => mk (.kmov (.imm v) k)
+       | _ => mk .unsupported)
+    else if isPureVec i.mn then
+      -- vector instruction with a general-purpose operand
+      (if ops.any COpd.isMem then mk .unsupported
+       else match lastOpd ops with
+         | .gpr r => mk (.clobber r)
+         | .vec => mk .skip
+         | _ => mk .unsupported)
+    else mk .unsupported
 
-/-- chunk size of the resolved program (jumps seek by chunk, then inside the chunk) -/
-def chunkSize : Nat := 64
+/-- chunk size of the (unresolved) program; jumps seek by chunk, then inside the chunk -/
+def chunkSize : Nat := 128
 
 def chunkAux {α : Type} : Nat → List α → List α → List (List α) → List (List α)
   | _, [], cur, acc => (cur.reverse :: acc).reverse
@@ -305,23 +328,67 @@ def chunkAux {α : Type} : Nat → List α → List α → List (List α) → Li
 /-- split into chunks of exactly `chunkSize` elements (the last one may be shorter) -/
 def chunk {α : Type} (l : List α) : List (List α) := chunkAux chunkSize l [] []
 
+def CInstr.isSkip (c : CInstr) : Bool :=
+  match c.ci with
+  | .skip => true
+  | _ => false
+
+/-- position of the instruction at byte offset `t` inside a chunk, counting only kept instructions -/
+def locateIn (t : Nat) : List CInstr → Nat → Option Nat
+  | [], _ => none
+  | c :: cs, k =>
+      if c.pc == t then some k
+      else locateIn t cs (if c.isSkip then k else k + 1)
+
+def firstPc : List CInstr → Nat
+  | [] => 0
+  | c :: _ => c.pc
+
+/-- (chunk index, position among the kept instructions of that chunk) of the instruction at byte offset `t` -/
+def locate (t : Nat) : List (List CInstr) → Nat → Option (Nat × Nat)
+  | [], _ => none
+  | [ch], c => (locateIn t ch 0).map (fun k => (c, k))
+  | ch :: ch2 :: tl, c =>
+      if firstPc ch2 ≤ t then locate t (ch2 :: tl) (c + 1)
+      else (locateIn t ch 0).map (fun k => (c, k))
+
+def resolveTarget (chunks : List (List CInstr)) (c : CInstr) : CInstr :=
+  match c.ci with
+  | .jmp t _ =>
+      (match locate t chunks 0 with
+       | some (ch, k) => { c with ci := .jmp ch k }
+       | none => { c with ci := .unsupported })
+  | .jcc cc t _ =>
+      (match locate t chunks 0 with
+       | some (ch, k) => { c with ci := .jcc cc ch k }
+       | none => { c with ci := .unsupported })
+  | _ => c
+
 abbrev Prog := List (List CInstr)
 
+/-- Resolve a routine: chunks of `chunkSize` instructions, pure vector instructions removed from each chunk,
+    jump targets = (chunk index, position in the chunk after removal). -/
 def compile (syms : List String) (l : List Instr) : Prog :=
-  let pcs := l.map (·.pc)
-  chunk (l.map (compile1 syms pcs))
+  let chunks := chunk (l.map (compile1 syms))
+  chunks.map (fun ch => (ch.filter (fun c => !c.isSkip)).map (resolveTarget chunks))
 
-/-! ## State and execution -/
+/-! ## Execution -/
 
-inductive Err where
+inductive ErrKind where
   | fuel
-  | fellOff                              -- ran past the last instruction
-  | badJump (pc line : Nat)
-  | unsupported (pc line : Nat)          -- instruction outside the interpreted fragment
-  | unknownAddr (pc line : Nat)          -- address is not `ptr`
-  | unknownBranch (pc line : Nat)        -- flags unknown and no oracle decision left
-  | badFrame (pc line : Nat)             -- frame slot not in the valuation / outside the argument frame
-  | badOperand (pc line : Nat)
+  | fellOff                -- ran past the last instruction
+  | badJump
+  | unsupported            -- instruction outside the interpreted fragment
+  | unknownAddr            -- address is not `ptr`
+  | unknownBranch          -- flags unknown and no oracle decision left
+  | badFrame               -- frame slot not in the valuation / outside the argument frame
+  | badOperand
+deriving DecidableEq, Repr
+
+structure Err where
+  kind : ErrKind
+  pc : Nat
+  line : Nat
 deriving DecidableEq, Repr
 
 /-- a recorded access together with the instruction that made it -/
@@ -330,15 +397,6 @@ structure Rec where
   line : Nat
   acc : Access
 deriving Repr
-
-structure St where
-  regs : List Val               -- 16 general-purpose registers
-  kregs : List Val              -- 8 opmask registers
-  flags : Option (Nat × Nat)    -- operands (a, b) of the last CMPQ a, b / SUBQ b, a (both words); none = unknown
-  frame : List (Nat × Val)      -- frame slot offset ↦ value
-  frameEnd : Nat                -- 8 + argBytes: first byte after the argument frame
-  oracle : List Bool            -- decisions ("taken") for branches on unknown flags
-  acc : List Rec                -- recorded accesses, most recent first
 
 def getReg (rs : List Val) (n : Nat) : Val := rs.getD n .unk
 
@@ -388,53 +446,65 @@ def Cond.eval (c : Cond) (a b : Nat) : Bool :=
   | .eq => a == b
   | .ne => !(a == b)
 
+/-- flags after `CMPQ a, b` / `SUBQ b, a` -/
+def flagsOf : Val → Val → Option (Nat × Nat)
+  | .int x, .int y => some (x, y)
+  | _, _ => none
+
 /-- address denoted by a memory operand -/
-def addrOf (st : St) : COpd → Option (Region × Nat)
+def addrOf (regs : List Val) : COpd → Option (Region × Nat)
   | .mem b none _ d =>
-      (match getReg st.regs b with
+      (match getReg regs b with
        | .ptr r o => some (r, (o + d) % W)
        | _ => none)
   | .mem b (some i) s d =>
-      (match getReg st.regs b, getReg st.regs i with
+      (match getReg regs b, getReg regs i with
        | .ptr r o, .int x => some (r, (o + d + x * s) % W)
        | _, _ => none)
   | .symMem id off => some (.sym id, off)
   | _ => none
 
-def St.record (st : St) (ci : CInstr) (a : Access) : St :=
-  { st with acc := ⟨ci.pc, ci.line, a⟩ :: st.acc }
+/-- a source operand: a value, a load, or an error -/
+inductive Src where
+  | val (v : Val)
+  | load (r : Region) (off : Nat)
+  | err (k : ErrKind)
 
-/-- read a `w`-byte source operand: its value and the state with the access recorded -/
-def readOpd (ci : CInstr) (w : Nat) (st : St) : COpd → Except Err (Val × St)
-  | .gpr n => .ok (getReg st.regs n, st)
-  | .imm v => .ok (.int v, st)
-  | .vec => .ok (.unk, st)
-  | .kreg _ => .error (.badOperand ci.pc ci.line)
-  | .symAddr id off => .ok (.ptr (.sym id) off, st)
+def evalSrc (regs : List Val) (frame : List (Nat × Val)) (frameEnd w : Nat) : COpd → Src
+  | .gpr n => .val (getReg regs n)
+  | .imm v => .val (.int v)
+  | .vec => .val .unk
+  | .kreg _ => .err .badOperand
+  | .symAddr id off => .val (.ptr (.sym id) off)
   | .frame off =>
-      if off + w ≤ st.frameEnd then
-        match lookupFrame st.frame off with
-        | some v => .ok (truncTo w v, st)
-        | none => .error (.badFrame ci.pc ci.line)
-      else .error (.badFrame ci.pc ci.line)
-  | .bad => .error (.badOperand ci.pc ci.line)
+      if off + w ≤ frameEnd then
+        match lookupFrame frame off with
+        | some v => .val (truncTo w v)
+        | none => .err .badFrame
+      else .err .badFrame
+  | .bad => .err .badOperand
   | o =>
-      match addrOf st o with
-      | some (r, off) => .ok (.unk, st.record ci ⟨r, off, w, false⟩)
-      | none => .error (.unknownAddr ci.pc ci.line)
+      match addrOf regs o with
+      | some (r, off) => .load r off
+      | none => .err .unknownAddr
 
-/-- write a `w`-byte destination operand -/
-def writeOpd (ci : CInstr) (w : Nat) (st : St) (v : Val) : COpd → Except Err St
-  | .gpr n => .ok { st with regs := st.regs.set n (truncTo w v) }
-  | .vec => .ok st
-  | .frame off =>
-      if off + w ≤ st.frameEnd then .ok { st with frame := (off, truncTo w v) :: st.frame }
-      else .error (.badFrame ci.pc ci.line)
+/-- a destination operand -/
+inductive Dst where
+  | reg (n : Nat)
+  | store (r : Region) (off : Nat)
+  | frame (off : Nat)
+  | vec
+  | err (k : ErrKind)
+
+def evalDst (regs : List Val) (frameEnd w : Nat) : COpd → Dst
+  | .gpr n => .reg n
+  | .vec => .vec
+  | .frame off => if off + w ≤ frameEnd then .frame off else .err .badFrame
   | .mem b i s d =>
-      (match addrOf st (.mem b i s d) with
-       | some (r, off) => .ok (st.record ci ⟨r, off, w, true⟩)
-       | none => .error (.unknownAddr ci.pc ci.line))
-  | _ => .error (.badOperand ci.pc ci.line)
+      (match addrOf regs (.mem b i s d) with
+       | some (r, off) => .store r off
+       | none => .err .unknownAddr)
+  | _ => .err .badOperand
 
 def lowBitAux : Nat → Nat → Nat → Nat
   | 0, _, i => i
@@ -454,139 +524,190 @@ def maskedRange (w elt m : Nat) : Option (Nat × Nat) :=
     let hi := Nat.log2 bits
     some (elt * lo, elt * (hi + 1 - lo))
 
-/-- record the memory operands of a vector instruction: the last operand is the destination -/
-def vecAccesses (ci : CInstr) (w elt : Nat) (mask : Option Nat) : List COpd → St → Except Err St
-  | [], st => .ok st
-  | o :: rest, st =>
+/-- record the memory operands of a vector instruction (the last operand is the destination);
+    `none` = an address or an opmask value is unknown -/
+def vecAccesses (regs kregs : List Val) (pc line w elt : Nat) (mask : Option Nat) :
+    List COpd → List Rec → Option (List Rec)
+  | [], acc => some acc
+  | o :: rest, acc =>
       if o.isMem then
-        match addrOf st o with
-        | none => .error (.unknownAddr ci.pc ci.line)
+        match addrOf regs o with
+        | none => none
         | some (r, off) =>
           let isW := rest.isEmpty
           match mask with
-          | none => vecAccesses ci w elt mask rest (st.record ci ⟨r, off, w, isW⟩)
+          | none => vecAccesses regs kregs pc line w elt mask rest (⟨pc, line, ⟨r, off, w, isW⟩⟩ :: acc)
           | some k =>
-            match getReg st.kregs k with
+            match getReg kregs k with
             | .int m =>
               (match maskedRange w elt m with
-               | none => vecAccesses ci w elt mask rest st
-               | some (d, len) => vecAccesses ci w elt mask rest (st.record ci ⟨r, (off + d) % W, len, isW⟩))
-            | _ => .error (.unknownAddr ci.pc ci.line)
-      else vecAccesses ci w elt mask rest st
+               | none => vecAccesses regs kregs pc line w elt mask rest acc
+               | some (d, len) =>
+                   vecAccesses regs kregs pc line w elt mask rest (⟨pc, line, ⟨r, (off + d) % W, len, isW⟩⟩ :: acc))
+            | _ => none
+      else vecAccesses regs kregs pc line w elt mask rest acc
+
+/-- the instructions from position (chunk, off) on: (rest of the chunk, following chunks) -/
+def seek (p : Prog) (chunk off : Nat) : Option (List CInstr × List (List CInstr)) :=
+  match p.drop chunk with
+  | [] => none
+  | c :: rest => some (c.drop off, rest)
+
+/-- outcome of a conditional jump: `some true` = taken; `none` = flags unknown and no decision left -/
+def decideBranch (c : Cond) (flags : Option (Nat × Nat)) (oracle : List Bool) : Option (Bool × List Bool) :=
+  match flags with
+  | some (a, b) => some (c.eval a b, oracle)
+  | none =>
+    match oracle with
+    | taken :: rest => some (taken, rest)
+    | [] => none
+
+/-! The state of a run is the tuple (general-purpose registers, opmask registers, flags = operands of the
+    last CMPQ/SUBQ or `none`, frame valuation, remaining oracle decisions, recorded accesses most recent
+    first).  It is passed around as separate arguments and the instruction semantics are split into many small
+    definitions: the kernel instantiates the whole body of a definition at every call, so small bodies are
+    what makes `decide +kernel` affordable. -/
 
 inductive StepR where
-  | next (st : St)
-  | goto (idx : Nat) (st : St)
-  | done (st : St)
-  | err (e : Err)
+  | next (regs kregs : List Val) (flags : Option (Nat × Nat)) (frame : List (Nat × Val))
+      (oracle : List Bool) (acc : List Rec)
+  | goto (chunk off : Nat) (oracle : List Bool)      -- a taken jump: nothing else changes
+  | done
+  | err (k : ErrKind)
 
-def branch (ci : CInstr) (c : Cond) (idx : Nat) (st : St) : StepR :=
-  match st.flags with
-  | some (a, b) => if c.eval a b then .goto idx st else .next st
-  | none =>
-    match st.oracle with
-    | taken :: rest =>
-        let st' := { st with oracle := rest }
-        if taken then .goto idx st' else .next st'
-    | [] => .err (.unknownBranch ci.pc ci.line)
+section Step
+variable (frameEnd pc line : Nat) (regs kregs : List Val) (flags : Option (Nat × Nat))
+  (frame : List (Nat × Val)) (oracle : List Bool) (acc : List Rec)
 
-def step (ci : CInstr) (st : St) : StepR :=
-  match ci.ci with
-  | .skip => .next st
-  | .ret => .done st
-  | .jmp idx => .goto idx st
-  | .jcc c idx => branch ci c idx st
-  | .unsupported => .err (.unsupported ci.pc ci.line)
-  | .clobber r => .next { st with regs := st.regs.set r .unk }
-  | .mov w s d =>
-      (match readOpd ci w st s with
-       | .error e => .err e
-       | .ok (v, st1) =>
-         match writeOpd ci w st1 v d with
-         | .error e => .err e
-         | .ok st2 => .next st2)
-  | .lea s d =>
-      (match s, d with
-       | .symAddr id off, .gpr n => .next { st with regs := st.regs.set n (.ptr (.sym id) off) }
-       | .mem b i sc disp, .gpr n =>
-           (match addrOf st (.mem b i sc disp) with
-            | some (r, off) => .next { st with regs := st.regs.set n (.ptr r off) }
-            | none =>
-              -- integer arithmetic through LEA
-              match getReg st.regs b, i with
-              | .int x, none => .next { st with regs := st.regs.set n (.int ((x + disp) % W)) }
-              | .int x, some j =>
-                  (match getReg st.regs j with
-                   | .int y => .next { st with regs := st.regs.set n (.int ((x + disp + y * sc) % W)) }
-                   | _ => .next { st with regs := st.regs.set n .unk })
-              | _, _ => .next { st with regs := st.regs.set n .unk })
-       | _, _ => .err (.badOperand ci.pc ci.line))
-  | .alu op w s d =>
-      (match readOpd ci w st s with
-       | .error e => .err e
-       | .ok (sv, st1) =>
-         match d with
-         | .gpr n =>
-             let dv := getReg st1.regs n
-             let nv := if w == 8 then aluEval op dv sv else .unk
-             let fl : Option (Nat × Nat) :=
-               match op, dv, sv with
-               | .sub, .int a, .int b => if w == 8 then some (a, b) else none
-               | _, _, _ => none
-             .next { st1 with regs := st1.regs.set n nv, flags := fl }
-         | .mem b i sc disp =>
-             (match addrOf st1 (.mem b i sc disp) with
-              | some (r, off) =>
-                  let st2 := st1.record ci ⟨r, off, w, false⟩
-                  let st3 := st2.record ci ⟨r, off, w, true⟩
-                  .next { st3 with flags := none }
-              | none => .err (.unknownAddr ci.pc ci.line))
-         | _ => .err (.badOperand ci.pc ci.line))
-  | .cmp a b =>
-      (match readOpd ci 8 st a with
-       | .error e => .err e
-       | .ok (av, st1) =>
-         match readOpd ci 8 st1 b with
-         | .error e => .err e
-         | .ok (bv, st2) =>
-           let fl : Option (Nat × Nat) :=
-             match av, bv with
-             | .int x, .int y => some (x, y)
-             | _, _ => none
-           .next { st2 with flags := fl })
-  | .kmov s k =>
-      (match readOpd ci 8 st s with
-       | .error e => .err e
-       | .ok (v, st1) =>
-         let kv : Val := match v with | .int n => .int (n % 65536) | _ => .unk
-         .next { st1 with kregs := st1.kregs.set k kv })
-  | .vmem w elt mask ops =>
-      (match vecAccesses ci w elt mask ops st with
-       | .error e => .err e
-       | .ok st1 =>
-         match lastOpd ops with
-         | .gpr r => .next { st1 with regs := st1.regs.set r .unk }
-         | _ => .next st1)
+def stepJcc (c : Cond) (ch off : Nat) : StepR :=
+  match decideBranch c flags oracle with
+  | none => .err .unknownBranch
+  | some (false, oracle') => .next regs kregs flags frame oracle' acc
+  | some (true, oracle') => .goto ch off oracle'
 
-/-- the instructions from index `idx` on: (rest of the chunk, following chunks) -/
-def seek (p : Prog) (idx : Nat) : List CInstr × List (List CInstr) :=
-  match p.drop (idx / chunkSize) with
-  | [] => ([], [])
-  | c :: rest => (c.drop (idx % chunkSize), rest)
+def movVal (w : Nat) (v : Val) (d : COpd) : StepR :=
+  match evalDst regs frameEnd w d with
+  | .reg n => .next (regs.set n (truncTo w v)) kregs flags frame oracle acc
+  | .store r off => .next regs kregs flags frame oracle (⟨pc, line, ⟨r, off, w, true⟩⟩ :: acc)
+  | .frame off => .next regs kregs flags ((off, truncTo w v) :: frame) oracle acc
+  | .vec => .next regs kregs flags frame oracle acc
+  | .err k => .err k
 
-def runLoop (p : Prog) : Nat → List CInstr → List (List CInstr) → St → Except Err (List Rec)
-  | 0, _, _, _ => .error .fuel
-  | _ + 1, [], [], _ => .error .fellOff
-  | f + 1, [], c :: rest, st => runLoop p f c rest st
-  | f + 1, ci :: cur, rest, st =>
-      match step ci st with
-      | .next st' => runLoop p f cur rest st'
-      | .goto idx st' =>
-          (match seek p idx with
-           | ([], []) => .error (.badJump ci.pc ci.line)
-           | (c, r) => runLoop p f c r st')
-      | .done st' => .ok st'.acc.reverse
-      | .err e => .error e
+def movLoad (w : Nat) (r : Region) (off : Nat) (d : COpd) : StepR :=
+  match evalDst regs frameEnd w d with
+  | .reg n => .next (regs.set n .unk) kregs flags frame oracle (⟨pc, line, ⟨r, off, w, false⟩⟩ :: acc)
+  | .vec => .next regs kregs flags frame oracle (⟨pc, line, ⟨r, off, w, false⟩⟩ :: acc)
+  | .err k => .err k
+  | _ => .err .badOperand
+
+def stepMov (w : Nat) (s d : COpd) : StepR :=
+  match evalSrc regs frame frameEnd w s with
+  | .err k => .err k
+  | .val v => movVal frameEnd pc line regs kregs flags frame oracle acc w v d
+  | .load r off => movLoad frameEnd pc line regs kregs flags frame oracle acc w r off d
+
+def leaIdx (n b i sc disp : Nat) : StepR :=
+  match getReg regs b, getReg regs i with
+  | .ptr r o, .int x => .next (regs.set n (.ptr r ((o + disp + x * sc) % W))) kregs flags frame oracle acc
+  | .int x, .int y => .next (regs.set n (.int ((x + disp + y * sc) % W))) kregs flags frame oracle acc
+  | _, _ => .next (regs.set n .unk) kregs flags frame oracle acc
+
+def leaBase (n b disp : Nat) : StepR :=
+  match getReg regs b with
+  | .ptr r o => .next (regs.set n (.ptr r ((o + disp) % W))) kregs flags frame oracle acc
+  | .int x => .next (regs.set n (.int ((x + disp) % W))) kregs flags frame oracle acc
+  | .unk => .next (regs.set n .unk) kregs flags frame oracle acc
+
+def stepLea (s : COpd) (n : Nat) : StepR :=
+  match s with
+  | .symAddr id off => .next (regs.set n (.ptr (.sym id) off)) kregs flags frame oracle acc
+  | .mem b none _ disp => leaBase regs kregs flags frame oracle acc n b disp
+  | .mem b (some i) sc disp => leaIdx regs kregs flags frame oracle acc n b i sc disp
+  | _ => .err .badOperand
+
+def aluVal (op : Alu) (w : Nat) (sv : Val) (d : COpd) : StepR :=
+  match evalDst regs frameEnd w d with
+  | .reg n =>
+      .next (regs.set n (if w == 8 then aluEval op (getReg regs n) sv else .unk)) kregs
+        (if w == 8 && op == .sub then flagsOf (getReg regs n) sv else none) frame oracle acc
+  | .store r off =>
+      .next regs kregs none frame oracle
+        (⟨pc, line, ⟨r, off, w, true⟩⟩ :: ⟨pc, line, ⟨r, off, w, false⟩⟩ :: acc)
+  | .err k => .err k
+  | _ => .err .badOperand
+
+def aluLoad (w : Nat) (r : Region) (off : Nat) (d : COpd) : StepR :=
+  match evalDst regs frameEnd w d with
+  | .reg n => .next (regs.set n .unk) kregs none frame oracle (⟨pc, line, ⟨r, off, w, false⟩⟩ :: acc)
+  | .err k => .err k
+  | _ => .err .badOperand
+
+def stepAlu (op : Alu) (w : Nat) (s d : COpd) : StepR :=
+  match evalSrc regs frame frameEnd w s with
+  | .err k => .err k
+  | .val sv => aluVal frameEnd pc line regs kregs frame oracle acc op w sv d
+  | .load r off => aluLoad frameEnd pc line regs kregs frame oracle acc w r off d
+
+def stepCmp (a b : COpd) : StepR :=
+  match evalSrc regs frame frameEnd 8 a, evalSrc regs frame frameEnd 8 b with
+  | .val av, .val bv => .next regs kregs (flagsOf av bv) frame oracle acc
+  | .load r off, .val _ => .next regs kregs none frame oracle (⟨pc, line, ⟨r, off, 8, false⟩⟩ :: acc)
+  | .val _, .load r off => .next regs kregs none frame oracle (⟨pc, line, ⟨r, off, 8, false⟩⟩ :: acc)
+  | .err k, _ => .err k
+  | _, .err k => .err k
+  | _, _ => .err .badOperand
+
+def stepKmov (s : COpd) (k : Nat) : StepR :=
+  match evalSrc regs frame frameEnd 8 s with
+  | .val (.int n) => .next regs (kregs.set k (.int (n % 65536))) flags frame oracle acc
+  | .val _ => .next regs (kregs.set k .unk) flags frame oracle acc
+  | .err e => .err e
+  | .load _ _ => .err .badOperand
+
+def stepVmem (w elt : Nat) (mask : Option Nat) (ops : List COpd) : StepR :=
+  match vecAccesses regs kregs pc line w elt mask ops acc with
+  | none => .err .unknownAddr
+  | some acc' =>
+    match lastOpd ops with
+    | .gpr r => .next (regs.set r .unk) kregs flags frame oracle acc'
+    | _ => .next regs kregs flags frame oracle acc'
+
+/-- one instruction -/
+def step (ci : CI) : StepR :=
+  match ci with
+  | .skip => .next regs kregs flags frame oracle acc
+  | .ret => .done
+  | .unsupported => .err .unsupported
+  | .jmp ch off => .goto ch off oracle
+  | .jcc c ch off => stepJcc regs kregs flags frame oracle acc c ch off
+  | .clobber r => .next (regs.set r .unk) kregs flags frame oracle acc
+  | .mov w s d => stepMov frameEnd pc line regs kregs flags frame oracle acc w s d
+  | .lea s n => stepLea regs kregs flags frame oracle acc s n
+  | .alu op w s d => stepAlu frameEnd pc line regs kregs frame oracle acc op w s d
+  | .cmp a b => stepCmp frameEnd pc line regs kregs frame oracle acc a b
+  | .kmov s k => stepKmov frameEnd regs kregs flags frame oracle acc s k
+  | .vmem w elt mask ops => stepVmem pc line regs kregs flags frame oracle acc w elt mask ops
+
+end Step
+
+/-- The interpreter loop; control = (rest of the current chunk, following chunks). -/
+def runLoop (p : Prog) (frameEnd : Nat) : Nat → List CInstr → List (List CInstr) →
+    List Val → List Val → Option (Nat × Nat) → List (Nat × Val) → List Bool → List Rec →
+    Except Err (List Rec)
+  | 0, _, _, _, _, _, _, _, _ => .error ⟨.fuel, 0, 0⟩
+  | _ + 1, [], [], _, _, _, _, _, _ => .error ⟨.fellOff, 0, 0⟩
+  | f + 1, [], c :: rest, regs, kregs, flags, frame, oracle, acc =>
+      runLoop p frameEnd f c rest regs kregs flags frame oracle acc
+  | f + 1, ⟨ci, pc, line⟩ :: cur, rest, regs, kregs, flags, frame, oracle, acc =>
+      match step frameEnd pc line regs kregs flags frame oracle acc ci with
+      | .next regs' kregs' flags' frame' oracle' acc' =>
+          runLoop p frameEnd f cur rest regs' kregs' flags' frame' oracle' acc'
+      | .goto ch off oracle' =>
+          (match seek p ch off with
+           | some (c, r) => runLoop p frameEnd f c r regs kregs flags frame oracle' acc
+           | none => .error ⟨.badJump, pc, line⟩)
+      | .done => .ok acc.reverse
+      | .err k => .error ⟨k, pc, line⟩
 
 def initRegs : List Val := List.replicate 16 .unk
 def initKregs : List Val := List.replicate 8 .unk
@@ -597,11 +718,8 @@ def initKregs : List Val := List.replicate 8 .unk
 def run (p : Prog) (frame : List (Nat × Val)) (argBytes : Nat) (oracle : List Bool) (fuel : Nat) :
     Except Err (List Rec) :=
   match p with
-  | [] => .error .fellOff
-  | c :: rest =>
-    runLoop p fuel c rest
-      { regs := initRegs, kregs := initKregs, flags := none, frame := frame,
-        frameEnd := 8 + argBytes, oracle := oracle, acc := [] }
+  | [] => .error ⟨.fellOff, 0, 0⟩
+  | c :: rest => runLoop p (8 + argBytes) fuel c rest initRegs initKregs none frame oracle []
 
 /-- the access list of a run -/
 def accesses (p : Prog) (frame : List (Nat × Val)) (argBytes : Nat) (oracle : List Bool) (fuel : Nat) :
